@@ -38,10 +38,62 @@ pub fn generate(check: &str, seed: u64, tier: Tier) -> Value {
         "C16" => crate::salts::gen_c16(&mut rng, tier),
         _ => return serde_json::json!({"kind": "unknown", "check": check}),
     };
-    v.unwrap_or(Value::Null)
+    let mut v = v.unwrap_or(Value::Null);
+    // environment of the embedding application, one more swarm dimension: a `log` backend that
+    // is enabled down to Trace (the code under test formats its log arguments only then)
+    if let Some(o) = v.as_object_mut() {
+        let mut r = Rng::new(crate::rng::mix(&[seed, 0x10c]));
+        o.insert("log".into(), Value::Bool(r.chance(1, 3)));
+    }
+    v
+}
+
+struct SimLogger;
+struct Sink;
+impl std::fmt::Write for Sink {
+    fn write_str(&mut self, s: &str) -> std::fmt::Result {
+        LOG_BYTES.fetch_add(s.len() as u64, std::sync::atomic::Ordering::Relaxed);
+        Ok(())
+    }
+}
+static LOG_BYTES: std::sync::atomic::AtomicU64 = std::sync::atomic::AtomicU64::new(0);
+impl log::Log for SimLogger {
+    fn enabled(&self, _: &log::Metadata) -> bool {
+        true
+    }
+    fn log(&self, record: &log::Record) {
+        // format the message (Display / Debug impls of the arguments run), keep nothing
+        let _ = std::fmt::write(&mut Sink, *record.args());
+    }
+    fn flush(&self) {}
+}
+static LOGGER: SimLogger = SimLogger;
+
+pub fn install_logger() {
+    let _ = log::set_logger(&LOGGER);
+    log::set_max_level(log::LevelFilter::Off);
 }
 
 pub fn execute(scn: &Value) -> RunReport {
+    let logging = scn.get("log").and_then(Value::as_bool).unwrap_or(false);
+    log::set_max_level(if logging { log::LevelFilter::Trace } else { log::LevelFilter::Off });
+    let before = LOG_BYTES.load(std::sync::atomic::Ordering::Relaxed);
+    let mut rep = execute_inner(scn);
+    log::set_max_level(log::LevelFilter::Off);
+    if logging {
+        rep.count("fault.log_backend_enabled_at_trace");
+        rep.add("probe.log_bytes_formatted", LOG_BYTES.load(std::sync::atomic::Ordering::Relaxed) - before);
+        // the reduced scenarios are rebuilt from typed structures: carry the environment over
+        for v in rep.violations.iter_mut() {
+            if let Some(o) = v.scenario.as_object_mut() {
+                o.insert("log".into(), Value::Bool(true));
+            }
+        }
+    }
+    rep
+}
+
+fn execute_inner(scn: &Value) -> RunReport {
     let kind = scn.get("kind").and_then(Value::as_str).unwrap_or("");
     let bad = |e: String| RunReport { harness_error: Some(format!("invalid scenario: {}", e)), ..Default::default() };
     match kind {
